@@ -1,0 +1,20 @@
+//! Verification-only hooks, compiled only with the `verif_hooks` feature (off by default).
+
+/// Thread-local prover switches; all default to the unmodified behaviour.
+pub mod knobs {
+    use core::cell::Cell;
+
+    std::thread_local! {
+        static LENIENT_QUOTIENT: Cell<bool> = const { Cell::new(false) };
+    }
+
+    /// When set, the prover truncates a too-long quotient polynomial instead of failing.
+    pub fn set_lenient_quotient(v: bool) {
+        LENIENT_QUOTIENT.with(|c| c.set(v));
+    }
+
+    /// Current value of the lenient-quotient switch on this thread.
+    pub fn lenient_quotient() -> bool {
+        LENIENT_QUOTIENT.with(|c| c.get())
+    }
+}
